@@ -34,6 +34,12 @@ def run(ctx, rep):
         rep.fail("R20.1", "found", "%s not found" % NAME)
         return
     rep.fn(NAME)
+    # private helpers of the adaptor (e.g. a `drain` step) are analysed in place
+    from mirq import inline_calls
+    ib = inline_calls(b, lambda d: d.startswith("insim::net::tokio_impl::websocket::") and "{closure" not in d and "as tokio::io" not in d and "as std::io" not in d, depth=3)
+    if ib is not b:
+        rep.notes.append("R20.1: private helper(s) inlined into poll_read")
+        b = ib
     P = b.calls_to(r"stream::Stream::poll_next$")
     E = [(bb, t) for bb, t in b.calls_to(r"Extend::extend$|BytesMut::extend_from_slice$") if is_buf(b.origin(t["args"][0]))]
     PS = b.calls_to(r"ReadBuf::<'a>::put_slice$")
@@ -48,9 +54,24 @@ def run(ctx, rep):
     edges = set()
     for sbb, targets, otherwise, o in b.switch_on(lambda o: (o[0] == "call" and o[1].endswith("BytesMut::is_empty") and is_buf(o[3][0]))):
         edges.add((sbb, otherwise))                       # is_empty() == true
-    for sbb, targets, otherwise, o in b.switch_on(lambda o: o[0] == "bin" and o[1] == "Gt" and o[2][0] == "call" and o[2][1].endswith("remaining") and o[3][0] == "const" and o[3][1] == 0):
-        edges.add((sbb, targets.get(0)))                  # remaining() > 0 is false
-    rep.check("R20.1", "buffered-first", len(edges) >= 1 and pbb not in b.reach(0, avoid_edges=edges),
+    for sbb, targets, otherwise, o in b.switch_on(lambda o: (o[0] == "un" and o[1] == "Not" and o[2][0] == "call" and o[2][1].endswith("BytesMut::is_empty") and is_buf(o[2][3][0]))):
+        edges.add((sbb, targets.get(0, otherwise)))       # !is_empty() is false
+    CMP = ("Eq", "Ne", "Gt", "Lt", "Ge", "Le")
+
+    def rem_cmp(o):
+        return o[0] == "bin" and o[1] in CMP and ((o[2][0] == "call" and o[2][1].endswith("remaining") and o[3][0] == "const" and o[3][1] is not None) or
+                                                  (o[3][0] == "call" and o[3][1].endswith("remaining") and o[2][0] == "const" and o[2][1] is not None))
+    for sbb, targets, otherwise, o in b.switch_on(rem_cmp):
+        # the edge taken when the caller has no room left (remaining() == 0), whatever the spelling: `> 0`, `== 0`, `< 1`, `!= 0`
+        a, c = (0, o[3][1]) if o[2][0] == "call" else (o[2][1], 0)
+        a1, c1 = (1, o[3][1]) if o[2][0] == "call" else (o[2][1], 1)
+        f = {"Eq": lambda x, y: x == y, "Ne": lambda x, y: x != y, "Gt": lambda x, y: x > y, "Lt": lambda x, y: x < y, "Ge": lambda x, y: x >= y, "Le": lambda x, y: x <= y}[o[1]]
+        if f(a, c) == f(a1, c1):
+            continue
+        f_t = targets.get(0, otherwise)
+        t_t = otherwise if 0 in targets else targets.get(1, otherwise)
+        edges.add((sbb, t_t if f(a, c) else f_t))
+    rep.check("R20.1", "buffered-first", len(edges) >= 1 and pbb not in b.reach_v(avoid_edges=edges),
               "the next message is polled although buffered bytes could be delivered", b.loc(pt["line"]), sample={"justifying_edges": sorted(edges)})
     # (b) binary payload appended whole
     eo = b.origin(et["args"][1])
